@@ -58,8 +58,21 @@ pub fn dash_path(path: &Path, dash_array: &[f32], mut dash_offset: f32) -> Path 
         index: 0,
     };
 
+    // every dash boundary that the loops below find costs one iteration, and between two
+    // boundaries that are a whole pattern apart we have advanced by the pattern's length
+    #[cfg(raqote_verif)]
+    let verif_limit = |len: f32| -> u64 {
+        let pattern_length: f32 = dash_array.iter().sum();
+        let patterns = if pattern_length.is_finite() && len.is_finite() { (len / pattern_length).ceil() as u64 } else { 0 };
+        (patterns + 2) * dash_array.len() as u64 + 2
+    };
+    #[cfg(raqote_verif)]
+    let mut verif_ticks = 0;
+
     // adjust our position in the dash array by the dash offset
     while dash_offset > state.remaining_length {
+        #[cfg(raqote_verif)]
+        crate::verif::tick("dash_path (offset)", &mut verif_ticks, verif_limit(total_dash_length));
         dash_offset -= state.remaining_length;
         state.index += 1;
         state.remaining_length = dash_array[state.index % dash_array.len()];
@@ -99,7 +112,11 @@ pub fn dash_path(path: &Path, dash_array: &[f32], mut dash_offset: f32) -> Path 
                     };
                     let mut len = line.length();
                     let lv = line.to_vector().normalize();
+                    #[cfg(raqote_verif)]
+                    let (mut verif_ticks, verif_limit) = (0, verif_limit(len));
                     while len > state.remaining_length {
+                        #[cfg(raqote_verif)]
+                        crate::verif::tick("dash_path (LineTo)", &mut verif_ticks, verif_limit);
                         let seg = start + lv * state.remaining_length;
                         if state.on {
                             if is_first_segment {
@@ -144,7 +161,11 @@ pub fn dash_path(path: &Path, dash_array: &[f32], mut dash_offset: f32) -> Path 
                     let mut len = line.length();
                     let lv = line.to_vector().normalize();
 
+                    #[cfg(raqote_verif)]
+                    let (mut verif_ticks, verif_limit) = (0, verif_limit(len));
                     while len > state.remaining_length {
+                        #[cfg(raqote_verif)]
+                        crate::verif::tick("dash_path (Close)", &mut verif_ticks, verif_limit);
                         let seg = start + lv * state.remaining_length;
                         if state.on {
                             if is_first_segment {
